@@ -80,6 +80,23 @@ def run(chk):
         okw &= len(a) <= 4 and "validate_point" not in k and term_of(a[2]) == ("param", "curve") and term_of(a[3]) == ("param", "hashfunc")
         okw &= isinstance(a[1], VSym) and a[1].t[0] == "attr" and a[1].t[2] == "point"
     chk.ob("R14.3", "every recovered key is wrapped by from_public_point(pk.point, curve, hashfunc) with validation left on", okw, loc=q2, key="C14|R14.3|wrap", detail="recovered keys are not re-validated through from_public_point(pk.point, curve, hashfunc)")
+    # every candidate computed by recover_public_keys reaches the result: the list is built by an
+    # unconditional map over the candidates (a comprehension without filter, or a loop whose body
+    # appends on every iteration: no if / try / continue / break on the way)
+    f2n = p.func(q2).node
+    okmap = False
+    whymap = "no map over the recovered candidates found"
+    for n in ast.walk(f2n):
+        if isinstance(n, (ast.ListComp, ast.GeneratorExp)) and any(isinstance(x, ast.Call) and norm_text(x.func).endswith("from_public_point") for x in ast.walk(n.elt)):
+            okmap = len(n.generators) == 1 and not n.generators[0].ifs
+            whymap = "the comprehension filters the candidates" if not okmap else ""
+        if isinstance(n, ast.For) and any(isinstance(x, ast.Call) and norm_text(x.func).endswith("from_public_point") for x in ast.walk(n)):
+            ctl = [type(x).__name__ for st_ in n.body for x in ast.walk(st_) if isinstance(x, (ast.If, ast.Try, ast.Continue, ast.Break, ast.While, ast.IfExp))]
+            apps = [st_ for st_ in n.body if isinstance(st_, ast.Expr) and isinstance(st_.value, ast.Call) and isinstance(st_.value.func, ast.Attribute) and st_.value.func.attr == "append"]
+            okmap = not ctl and len(apps) == 1 and not n.orelse
+            whymap = "the loop over the candidates contains %s: a recovered key can be dropped" % sorted(set(ctl)) if ctl else "" if okmap else "the loop does not append exactly once per candidate"
+    chk.ob("R14.3", "from_public_key_recovery_with_digest returns one key per candidate of recover_public_keys (no filtering)", okmap, loc=q2, key="C14|R14.3|no-filter",
+           detail="not every recovered candidate reaches the result: %s" % whymap)
     # ---- R14.3 recover_public_keys
     q3 = "ecdsa:Signature.recover_public_keys"
     f3 = p.func(q3)
